@@ -20,7 +20,10 @@ Case families (each enumerated completely; see enumerate_cases for the exact bou
   obs    out-of-domain inputs (observation only: counted, never a violation)
   hist   breadth-first search over operation histories on ONE object (alphabet OPS, depth <= 3 quick / 4 thorough,
          thorough goes on to depth 5 when the budget allows), deduplicated on the canonical object state; every export
-         of every history is judged independently
+         of every history is judged independently.  A second alphabet OPS_EXT (export(), export(cert_block=<bytes of a
+         separately built block>), add_command, insert_command at 0 / middle / -1, set_commands) runs on the
+         representatives HIST_BASES_EXT: every entry point in every order on fresh objects, every public mutator of
+         the command container between exports; each file must be accepted and decode to the object's CURRENT list
 Before the enumeration the ROM model is calibrated on the repository's golden SB3.1 files (w_golden).
 
 Oracle clauses (ids C05.<name>): see CLAUSES.
@@ -44,6 +47,7 @@ CLAUSES = {
     "C05.header-field": "a header field read by the ROM model differs from the value supplied (disc = field)",
     "C05.cert": "the certificate block read by the ROM model differs from the keys / ISK data supplied (disc = item)",
     "C05.commands": "a command decoded by the ROM model differs from the command given (disc = command:field)",
+    "C05.reexport-commands": "a later export of an object decodes to the command list the object held at an earlier export, not to its current one",
     "C05.export-differs": "two exports of an unchanged object differ outside the ECDSA signature bytes",
     "C05.history-error": "an operation of a history raised on an object whose first use succeeded, or raised something other than SPSDKError (disc = exception type @ raising function)",
     "C05.tamper-rom-accepts": "the ROM model accepts a file with one bit flipped (a byte outside the signature + hash-chain coverage)",
@@ -428,7 +432,7 @@ def do_export(sb) -> bytes:
 
 
 def judge(data: bytes, given: dict, program: list, seed: int, viol: list, count: dict, reexport: bool = False,
-          payload_index: Optional[list] = None, skip_stages: tuple = ()) -> Optional[dict]:
+          payload_index: Optional[list] = None, skip_stages: tuple = (), earlier: tuple = ()) -> Optional[dict]:
     """All clauses on one file.  Returns the model's result (or None when it could not be produced)."""
     from vf.ref import rom_sb31
 
@@ -473,6 +477,17 @@ def judge(data: bytes, given: dict, program: list, seed: int, viol: list, count:
     cmds = res.get("commands")
     if cmds is not None:
         exp = [expected_semantic(s, seed, (payload_index[i] if payload_index else i)) for i, s in enumerate(program)]
+        if len(cmds) != len(exp) or any(diff_semantic(e, g) for e, g in zip(exp, cmds)):
+            # a valid file that holds the command list of an EARLIER export of this object: one defect, one discriminator
+            for prog0, pidx0 in earlier:
+                exp0 = [expected_semantic(s, seed, pidx0[i]) for i, s in enumerate(prog0)]
+                if len(exp0) == len(cmds) and all(not diff_semantic(e0, g) for e0, g in zip(exp0, cmds)):
+                    viol.append(("C05.reexport-commands", "stale-command-list",
+                                 f"the file decodes to the command list of an earlier export {[e0['cmd'] for e0 in exp0][:8]}, the "
+                                 f"object now holds {[e['cmd'] for e in exp][:8]}"))
+                    cmds = None
+                    break
+    if cmds is not None:
         desync = False
         for i, (e, g) in enumerate(zip(exp, cmds)):
             bad = diff_semantic(e, g)
@@ -663,11 +678,28 @@ HIST_BASES = [{"trust": t, "enc": e, "prog": pr}
               for t in ("p256/1/0/none", "p384/2/1/none", "p256/2/0/same", "p384/1/0/other")
               for e in (1, 0) for pr in ("one-block", "base")] + [{"trust": "p256/1/0/none", "prog": "all14"}]
 OPS = ("E", "S", "V", "A", "B", "X", "O", "C")
-OP_DOC = {"E": "export()", "S": "str(obj) (calls validate)", "V": "validate()", "A": "sb_commands.add_command(16-byte command)",
+# second alphabet (entry-point variants of export + every public mutator of the command container), explored on the
+# representatives HIST_BASES_EXT; kept apart from OPS so that the product of the two alphabets is not taken
+OPS_EXT = ("E", "P", "A", "I", "M", "N", "T")
+OP_DOC = {"P": "export(cert_block=<bytes of a separately built and exported CertBlockV21 with the same keys>)",
+          "I": "sb_commands.insert_command(0, cmd)", "M": "sb_commands.insert_command(middle index, cmd)",
+          "N": "sb_commands.insert_command(-1, cmd) (documented: append)",
+          "T": "sb_commands.set_commands([new cmd] + current commands in reverse order)",
+          "E": "export()", "S": "str(obj) (calls validate)", "V": "validate()", "A": "sb_commands.add_command(16-byte command)",
           "B": "sb_commands.add_command(LOAD of 256 bytes: one more block)", "X": "sb_commands.export() (commands blob alone)",
           "O": "build and export a second, different container object in the same process",
           "C": "build and export a second container that shares this object's CertBlockV21 (other timestamp / commands)"}
 HIST_ADD = {"A": ["execute", 0x300], "B": ["load", 0x4000, 0, 256]}
+HIST_INSERT = {"I": ["fwcheck", 3, 1], "M": ["fill", 0x40, 0x10, 0x11223344], "N": ["call", 0x500]}
+HIST_SET_FIRST = ["erase", 0x8000, 0x200, 2]
+HIST_BASES_EXT = [{"trust": "p256/2/0/same", "iskud": 4, "prog": "base", "x": 1},
+                  {"trust": "p384/2/1/none", "enc": 0, "prog": "one-block", "x": 1},
+                  {"trust": "p384/1/0/other", "prog": "all14", "x": 1}]
+HIST_BASES = HIST_BASES + HIST_BASES_EXT
+
+
+def ops_for(b: int) -> tuple:
+    return OPS_EXT if HIST_BASES[b].get("x") else OPS
 OTHER_BASE = {"trust": "p384/1/0/same", "enc": 1, "prog": "one-block", "ts": 0x777}
 
 
@@ -681,7 +713,37 @@ def canon(sb, program: list) -> list:
     isk = sb.cert_block.isk_certificate
     return [core.short_hash(program), len(program), sb.sb_header.block_count, sb.sb_header.image_total_length,
             sb.sb_commands.block_count, bytes(sb.sb_commands.final_hash).hex(), bool(isk.signature) if isk else None,
-            sb.cert_block.header.cert_block_size, sb.sb_header.timestamp, sb.timestamp]
+            sb.cert_block.header.cert_block_size, sb.sb_header.timestamp, sb.timestamp,
+            # every other attribute the objects carry (memos, counters added later): two histories are merged only when
+            # the complete attribute dictionaries agree, so hidden state cannot make the deduplication unsound
+            core.short_hash([_vars_repr(sb), _vars_repr(sb.sb_header), _vars_repr(sb.sb_commands),
+                             _vars_repr(sb.cert_block.header), _vars_repr(sb.cert_block.root_key_record),
+                             _vars_repr(isk, random_bytes=("signature",)) if isk else None])]
+
+
+def _attr_repr(v: Any) -> Any:
+    import hashlib
+
+    if isinstance(v, (bytes, bytearray)):
+        return bytes(v).hex() if len(v) <= 64 else "sha1:" + hashlib.sha1(bytes(v)).hexdigest()
+    if v is None or isinstance(v, (bool, int, str, float)):
+        return v
+    if isinstance(v, (list, tuple)):
+        return [_attr_repr(x) for x in v]
+    if isinstance(v, dict):
+        return {str(k): _attr_repr(x) for k, x in sorted(v.items(), key=lambda kv: str(kv[0]))}
+    from spsdk.sbfile.sb31.commands import MainCmd
+
+    if isinstance(v, MainCmd):
+        try:
+            return "cmd:" + hashlib.sha1(v.export()).hexdigest()
+        except Exception:  # noqa
+            return "cmd:" + type(v).__name__
+    return "<" + type(v).__name__ + ">"
+
+
+def _vars_repr(obj: Any, random_bytes: tuple = ()) -> dict:
+    return {k: (bool(v) if k in random_bytes else _attr_repr(v)) for k, v in sorted(vars(obj).items())}
 
 
 def run_history(case: dict, seed: int) -> dict:
@@ -698,12 +760,19 @@ def run_history(case: dict, seed: int) -> dict:
     pidx = list(range(len(program)))
     states = [canon(sb, program)]
     exports = 0
-    last_masked = None  # (masked bytes, program length) of the previous export
+    last_masked = None  # (masked bytes, program) of the previous export
+    earlier: list = []  # (program, payload indices) at the earlier exports of this object
     judged_all = True
     for step, op in enumerate(case["hist"]):
         try:
-            if op == "E":
-                data = sb.export()
+            if op in "EP":
+                if op == "P":
+                    # the documented second form: embed an already serialised block (here: of a separately built
+                    # CertBlockV21 object with the same keys / ISK data, as if signed elsewhere and delivered as a file)
+                    other, _g = build_container(dict(p, program=[]), seed)
+                    data = sb.export(cert_block=other.cert_block.export())
+                else:
+                    data = sb.export()
                 exports += 1
                 count["history_exports"] = count.get("history_exports", 0) + 1
                 nv = len(viol)
@@ -713,13 +782,17 @@ def run_history(case: dict, seed: int) -> dict:
                     # wrong is reported by the input families (clause C05.rom-accepts), not again here
                     from vf.ref import rom_sb31
 
-                    fresh, _g = build_container(p, seed)
-                    for i, spec in enumerate(program[len(p["program"]):]):
-                        fresh.sb_commands.add_command(mk_cmd(spec, seed, pidx[len(p["program"]) + i]))
-                    _r0, pr0 = rom_sb31.analyze(fresh.export(), given["pck"], root_keys=given["roots"],
+                    fresh, _g = build_container(dict(p, program=[]), seed)
+                    for spec, pi in zip(program, pidx):
+                        fresh.sb_commands.add_command(mk_cmd(spec, seed, pi))
+                    # (same entry point: a first export(cert_block=...) on a fresh object is a case of its own, "P")
+                    d0 = fresh.export(cert_block=other.cert_block.export()) if op == "P" else fresh.export()
+                    _r0, pr0 = rom_sb31.analyze(d0, given["pck"], root_keys=given["roots"],
                                                 kdk_access_rights=given["kdk"], encrypted=given["enc"])
                     skip = tuple(st for st, _m in pr0)
-                res = judge(data, given, program, seed, viol, count, reexport=exports > 1, payload_index=pidx, skip_stages=skip)
+                res = judge(data, given, program, seed, viol, count, reexport=exports > 1, payload_index=pidx, skip_stages=skip,
+                            earlier=earlier)
+                earlier.append((list(program), list(pidx)))
                 if res is None or res.get("commands") is None:
                     judged_all = False
                 clean = len(viol) == nv  # a difference between two exports is reported only when both are valid files
@@ -727,12 +800,12 @@ def run_history(case: dict, seed: int) -> dict:
                     last_masked = None
                 elif res is not None and res.get("regions"):
                     m = mask_signatures(data, res)
-                    if last_masked is not None and last_masked[1] == len(program) and last_masked[0] != m:
+                    if last_masked is not None and last_masked[1] == [program, pidx] and last_masked[0] != m:
                         i = next((i for i, (x, y) in enumerate(zip(last_masked[0], m)) if x != y), min(len(m), len(last_masked[0])))
                         where = next((region_class(n) for n, a, b in res["regions"] if a <= i < b), "length")
                         viol.append(("C05.export-differs", where, f"export #{exports} differs from the previous export of the "
                                      f"same commands at offset {i} (outside the signature bytes)"))
-                    last_masked = (m, len(program))
+                    last_masked = (m, [list(program), list(pidx)])
             elif op == "S":
                 str(sb)
             elif op == "V":
@@ -742,6 +815,19 @@ def run_history(case: dict, seed: int) -> dict:
                 sb.sb_commands.add_command(mk_cmd(spec, seed, 100 + step))
                 program.append(spec)
                 pidx.append(100 + step)
+            elif op in HIST_INSERT:
+                spec = HIST_INSERT[op]
+                at = {"I": 0, "M": max(1, len(program) // 2), "N": -1}[op]
+                sb.sb_commands.insert_command(at, mk_cmd(spec, seed, 300 + step))
+                if at == -1:  # documented in insert_command: -1 appends
+                    at = len(program)
+                program.insert(at, spec)
+                pidx.insert(at, 300 + step)
+            elif op == "T":
+                current = list(sb.sb_commands.commands)
+                sb.sb_commands.set_commands([mk_cmd(HIST_SET_FIRST, seed, 400 + step)] + current[::-1])
+                program[:] = [HIST_SET_FIRST] + program[::-1]
+                pidx[:] = [400 + step] + pidx[::-1]
             elif op == "X":
                 sb.sb_commands.export()
                 exports += 1  # a later export() of the container is a re-export of the commands blob
@@ -769,7 +855,7 @@ def run_history(case: dict, seed: int) -> dict:
             from spsdk.exceptions import SPSDKError
 
             judged_all = False
-            if isinstance(e, SPSDKError) and op in "ESVX" and not any(o in "ESVX" for o in case["hist"][:step]):
+            if isinstance(e, SPSDKError) and op in "EPSVX" and not any(o in "EPSVX" for o in case["hist"][:step]):
                 count["history_base_rejected"] = 1  # the builder refuses the object at its first use (see family lat)
             else:
                 viol.append(("C05.history-error", f"{_tname(e)}@{_site(e)}", f"step {step} ({op}) of {case['hist']}: {type(e).__name__}: {e}"[:300]))
@@ -1176,7 +1262,7 @@ class HistoryBfs:
         """Run one more level.  Returns False when the budget cut it (`optional`: a cut is not a loss of the stated bound)."""
         ctx = self.ctx
         d = self.completed + 1
-        cases = [{"b": b, "hist": h + op} for (b, h) in self.frontier for op in OPS]
+        cases = [{"b": b, "hist": h + op} for (b, h) in self.frontier for op in ops_for(b)]
         nxt = []
         new_states = 0
         done = 0
@@ -1205,7 +1291,7 @@ class HistoryBfs:
                 new_states += 1
                 nxt.append((case["b"], case["hist"]))
                 ctx.add_distinct("hist|%d|%s" % key)
-            if case["hist"] in ("E", "EE", "EAE", "XEB", "SCEBE"):
+            if case["hist"] in ("E", "EE", "EAE", "XEB", "SCEBE", "P", "PE", "EIE", "ETE"):
                 ctx.sample(case, limit=30)
         self.levels.append({"depth": d, "histories": len(cases), "histories_run": done, "new_states": new_states, "completed": True})
         self.frontier = nxt
@@ -1254,14 +1340,16 @@ def run(ctx: core.Ctx) -> None:
         "every 16-aligned offset mod 256, 1..6 blocks) x %d configurations; strad = LOAD(16k), k = 0..15, followed by one "
         "command of each of the 14 classes; seq = every command sequence of length <= 2 over the %d-symbol boundary alphabet "
         "(length 1 under 4 configurations with tamper sweep, length 2 under 2)%s; bits = every bit of the file of %d small "
-        "base cases; cli = %d nxpimage sb31 export runs (CliRunner); hist = BFS over operation histories (alphabet %s) up to "
-        "depth %d on %d base objects, deduplicated on the canonical object state.  A case is distinct/non-trivial when the "
+        "base cases; cli = %d nxpimage sb31 export runs (CliRunner); hist = BFS over operation histories (alphabet %s; on the last %d of the base objects the "
+        "alphabet %s: export(cert_block=bytes) and every public mutator of the command container) up to "
+        "depth %d on %d base objects, deduplicated on the canonical object state (all attributes of the objects).  A case is distinct/non-trivial when the "
         "builder accepted it and the ROM model decoded the command stream; the token is (program, departures) or (base, "
         "canonical state)."
         % (len(DIMS), 2 if quick else 3, len(DIMS["trust"]), 2 if quick else 3, 2 if quick else 4, len(ALPHABET),
            "; length 3 over the %d-symbol reduced alphabet" % len(ALPHABET3) if quick else
            "; length 3 over the full alphabet under 2 configurations; length 4 over the %d-symbol reduced alphabet" % len(ALPHABET3),
-           len(fam["bits"]) // 16, len(CLI_CASES), "".join(OPS), 3 if quick else 4, len(HIST_BASES)))
+           len(fam["bits"]) // 16, len(CLI_CASES), "".join(OPS), len(HIST_BASES_EXT), "".join(OPS_EXT), 3 if quick else 4,
+           len(HIST_BASES)))
     ctx.cov["alphabet"] = len(ALPHABET)
     ctx.cov["alphabet_reduced"] = len(ALPHABET3)
     ctx.cov["dimensions"] = {n: len(v) for n, v in DIMS.items()}
